@@ -225,7 +225,8 @@ check('C06',
       'zero output and on => min <= power + factor x heat <= max; the output changes by at most the ramp between steps and in the '
       'first step relative to the last dispatch; start flags dominate the transitions and the flags set exactly at the transitions '
       'keep every row satisfied (so positive start costs / fuel charge exactly the transitions); heat <= share x power; the fuel '
-      'factors give output / efficiency + running + start consumption. The model builder Plant.v (Plant and CHPAsset with on / start '
+      'factors give output / efficiency + running + start consumption; the same run-length statements are proved for the row lists '
+      'the model builder emits (PlantRows.v: pl_rows_start / pl_rows_rt / pl_rows_dt evaluate to exactly these inequalities). The model builder Plant.v (Plant and CHPAsset with on / start '
       'binaries, capacity, ramp, start, run-time, down-time, heat rows, initial-state bounds, fuel mapping; no start / shutdown ramp '
       'profiles) is compared with the implementation; on the implementation every optimised plant portfolio is checked from x '
       '(capacity, ramps incl. first step, start flags, run lengths incl. declared initial state, heat share, fuel drawn, cash flow), '
